@@ -18,6 +18,7 @@ class Builder:
         self.next_c = 1
         self.next_s = 500
         self.classes = []
+        self.members = []
         self.dbc = {}
         self.keys_of = {}      # class -> keys visible (own + inherited)
 
@@ -51,6 +52,7 @@ class Builder:
         self.classes.append(k)
         self.dbc[k] = dbc or any(self.dbc[b] for b in bases)
         self.ops.append(op("class", k=k, bases=list(bases), dbc=self.dbc[k], ns=ns))
+        self.members.append((k, ns))
         return k
 
     def add_inv(self, k, call=True, setattr_=False):
@@ -61,8 +63,12 @@ class Builder:
         return {"dom": "meta", "snapNames": self.snap_names, "ops": self.ops}
 
 
-def random_history(rng, max_classes=6, p_inv=0.5, keys=KEYS):
+def random_history(rng, max_classes=6, p_inv=0.5, keys=KEYS, late=False):
+    """late=True: also decorate members of already created classes (postconditions / snapshots added afterwards) and let
+    two function ids share one undecorated function object (the same implementation decorated / bound twice)"""
     b = Builder()
+    same_bare = {}
+    plain_fns = []
     n = rng.randint(2, max_classes)
     for i in range(n):
         nb = 0 if i == 0 else rng.choice([0, 1, 1, 1, 2, 2])
@@ -85,6 +91,10 @@ def random_history(rng, max_classes=6, p_inv=0.5, keys=KEYS):
                 ns.append(b.member(key, **acc))
             else:
                 f = b.new_fn(npre, npost, nsnap, sname)
+                if late and key in ("m", "n") and plain_fns and rng.random() < 0.3:
+                    same_bare[str(f)] = rng.choice(plain_fns)          # the same implementation function, decorated again
+                elif late and key in ("m", "n"):
+                    plain_fns.append(f)
                 if rng.random() < 0.25:
                     b.ops.append(op("wrap", f=f))      # a foreign functools.wraps decorator above the contracts
                 ns.append(b.member(key, f))
@@ -95,11 +105,67 @@ def random_history(rng, max_classes=6, p_inv=0.5, keys=KEYS):
             for _ in range(rng.randint(1, 2)):
                 call, sa = rng.choice([(True, False), (True, False), (False, True), (True, True)])
                 b.add_inv(k, call, sa)
+        if late and rng.random() < 0.5:
+            # a late decoration of a member of an already created class
+            # (only members that already carry a checker: a first contract creates a NEW function object that the user
+            # has to re-bind - what other classes then see is a matter of ordinary attribute look-up, not of the library)
+            has_contracts = set(o["f"] for o in b.ops if o["op"] in ("pre", "post"))
+            cands = [(kk, key, m) for kk, ns_ in b.members for key, m in ns_ if isinstance(m, dict) and next(iter(m)) in ("func", "static", "classm")
+                     and key not in ("__init__",) and m[next(iter(m))]["f"] in has_contracts]
+            if cands:
+                _kk, _key, m = rng.choice(cands)
+                f = m[next(iter(m))]["f"]
+                what = rng.choice(["post", "post", "snap"])
+                if what == "post":
+                    b.ops.append(op("post", f=f, c=b.next_c))
+                    b.next_c += 1
+                else:
+                    sid = b.next_s
+                    b.next_s += 1
+                    b.snap_names.append([sid, "late%d" % sid])
+                    b.ops.append(op("post", f=f, c=b.next_c))
+                    b.next_c += 1
+                    b.ops.append(op("snap", f=f, c=sid))
         # sometimes decorate an *earlier* class with an invariant after subclasses exist
         if rng.random() < 0.2 and len(b.classes) > 1:
             call, sa = rng.choice([(True, False), (False, True), (True, True)])
             b.add_inv(rng.choice(b.classes[:-1]), call, sa)
-    return b.case()
+    c = b.case()
+    if late:
+        c["sameBare"] = same_bare
+    return c
+
+
+def late_shapes():
+    """late decorations (after the class exists) of members that already carry a checker"""
+    out = []
+    for what in ("pre", "post", "snap"):
+        for own_pre in (0, 1):
+            for own_post in (0, 1):
+                if what == "pre" and own_pre:
+                    continue        # (the library refuses a late @require on a member that already has several groups)
+                # A.m has a precondition and a postcondition; B(A) overrides m; C(A) is a sibling override; then B.m is decorated late
+                b = Builder()
+                a = b.add_class([], [b.member("m", b.new_fn(1, 1))])
+                fb = b.new_fn(own_pre, own_post)
+                kb = b.add_class([a], [b.member("m", fb)])
+                b.add_class([a], [b.member("m", b.new_fn(0, 1))])
+                b.add_class([a], [b.member("m", b.new_fn(0, 0))])        # a sibling that overrides without own contracts
+                b.add_class([kb], [b.member("n", b.new_fn(1, 0))])
+                if what == "pre":
+                    b.ops.append(op("pre", f=fb, c=b.next_c))
+                elif what == "post":
+                    b.ops.append(op("post", f=fb, c=b.next_c))
+                else:
+                    sid = b.next_s
+                    b.next_s += 1
+                    b.snap_names.append([sid, "late%d" % sid])
+                    b.ops.append(op("post", f=fb, c=b.next_c))
+                    b.next_c += 1
+                    b.ops.append(op("snap", f=fb, c=sid))
+                b.next_c += 1
+                out.append(b.case())
+    return out
 
 
 def shapes():
